@@ -76,11 +76,14 @@ CLAIMED = {
     "C15": dict(
         text="Lean 4 theorems: exact reading (Q): corrected position is the unique representative in [0,L) congruent mod L, idempotent; "
              "separation congruent, in [-L/2, L/2), minimal image; cubic and cuboid classes agree for equal lengths for EVERY scalar type "
-             "(so also binary64); rounding-abstract reading: 0 <= y <= L, |sep| <= L/2, idempotent-or-L; kernel-evaluated binary64 "
-             "counterexamples for the half-open bound. Correspondence bit-exact against both real setting classes (entry and vector forms, "
+             "(so also binary64); rounding-abstract reading (any monotone idempotent rounding): HALF-OPEN 0 <= y < L and idempotence of the "
+             "position correction for all inputs, |sep| <= L/2; kernel-evaluated binary64 facts on the witnesses of the repaired finding "
+             "(the modulo rounds to L, the corrected position is 0.0 and idempotent; nan passes through). Correspondence bit-exact against both real setting classes (entry and vector forms, "
              "error outcomes); Fraction oracle of every clause on the implementation.",
-        note="Known finding F1: correct_position_entry(x) == L for -ulp(L)/4 <= x < 0 (Python float % rounds), so [0,L) and idempotence "
-             "fail there in binary64. Rounding-abstract reading is not tied to Lean Float by proof (bit-exact run does that).",
+        note="Former finding F1 (correct_position_entry(x) == L for -ulp(L)/4 <= x < 0, Python float % rounds) is repaired in /repo "
+             "(commit f8d52fc: `r if r != L else 0.0`); model, theorems and oracle follow the repaired code, the old witnesses are "
+             "regression inputs (known_findings/C15.json: status fixed). Rounding-abstract reading is not tied to Lean Float by proof "
+             "(bit-exact run does that).",
         technique="Lean 4 proof over a hand-written model + bit-exact differential correspondence + Fraction oracle",
         ref="§5 C15"),
     "C06": dict(
